@@ -64,7 +64,7 @@ func Guard(fn func() *Fail) (f *Fail) {
 }
 
 var reFrame = regexp.MustCompile(`(?m)^(github\.com/cocosip/go-dicom-codecs[^\s(]*)\(`)
-var reFrame2 = regexp.MustCompile(`(?m)^(github\.com/cocosip/go-dicom-codecs\S*?)(\(|\.func)`)
+var reFrame2 = regexp.MustCompile(`(?m)^(github\.com/cocosip/go-dicom-codecs/\S+)\(`)
 
 // PanicSite extracts the innermost repo function on a stack trace.
 func PanicSite(stack []byte) string {
